@@ -70,7 +70,8 @@ fn execute(mode: Mode, r: &render::Rendered) -> Obs {
 }
 
 fn obs_json(o: &Obs) -> Value {
-    json!({"oc": o.oc, "st": o.st, "tr": tr_json(&o.tr), "detail": o.detail})
+    let shown = &o.tr[..o.tr.len().min(80)];
+    json!({"oc": o.oc, "st": o.st, "tr": tr_json(shown), "tr_len": o.tr.len(), "detail": o.detail})
 }
 
 // ---------------------------------------------------------------------------
@@ -93,12 +94,17 @@ fn worker_run(args: &[String]) -> i32 {
     let part = opt_usize(args, "--part", 0);
     let parts = opt_usize(args, "--parts", 1).max(1);
     let skip = opt_usize(args, "--skip", 0);
+    let only = opt(args, "--only").and_then(|s| s.parse::<usize>().ok());
     let path = opt(args, "--in").expect("--in");
     let f = BufReader::new(std::fs::File::open(path).expect("open --in"));
     let sd = seed();
     for (idx, line) in f.lines().enumerate() {
         let line = line.expect("read");
-        if idx % parts != part || idx < skip || (idx / parts) % every != 0 {
+        if let Some(o) = only {
+            if idx != o {
+                continue;
+            }
+        } else if idx % parts != part || idx < skip || (idx / parts) % every != 0 {
             continue;
         }
         let v: Value = match serde_json::from_str(&line) {
@@ -117,7 +123,8 @@ fn worker_run(args: &[String]) -> i32 {
         let mut unsupported = 0;
         let mut fails: Vec<Value> = vec![];
         let mut sample = Value::Null;
-        let has_tick = tree.any(&|n| n.k == "tick");
+        // not renderable for the true entry point: the test bed's built-ins `tick` and `status`
+        let has_tick = tree.any(&|n| n.k == "tick" || (n.k == "cmd" && n.s == "status"));
         let has_pipe = tree.any(&|n| n.k == "pipe");
         for (oi, o) in v["o"].as_array().cloned().unwrap_or_default().iter().enumerate() {
             match o["oc"].as_str().unwrap_or("") {
@@ -178,9 +185,14 @@ fn worker_random(args: &[String]) -> i32 {
     let part = opt_usize(args, "--part", 0);
     let parts = opt_usize(args, "--parts", 1).max(1);
     let skip = opt_usize(args, "--skip", 0);
+    let only = opt(args, "--only").and_then(|s| s.parse::<usize>().ok());
     let sd = seed();
     for idx in 0..n {
-        if idx % parts != part || idx < skip {
+        if let Some(o) = only {
+            if idx != o {
+                continue;
+            }
+        } else if idx % parts != part || idx < skip {
             continue;
         }
         let mut rng = StdRng::seed_from_u64(mix(mix(sd, 0x5eed), idx as u64));
@@ -208,7 +220,9 @@ fn worker_random(args: &[String]) -> i32 {
         let obs = exec::run_sim(&rendered);
         let mut rec = head;
         rec["oc"] = json!(obs.oc);
-        rec["tr"] = tr_json(&obs.tr);
+        // (an abandoned run may have recorded thousands of observations: keep a prefix)
+        let keep = if obs.oc == "completed" { obs.tr.len() } else { obs.tr.len().min(200) };
+        rec["tr"] = tr_json(&obs.tr[..keep]);
         rec["st"] = json!(obs.st);
         rec["detail"] = json!(obs.detail);
         emit(&format!("R {rec}"));
@@ -219,6 +233,86 @@ fn worker_random(args: &[String]) -> i32 {
 // ---------------------------------------------------------------------------
 // supervisor
 // ---------------------------------------------------------------------------
+
+type Pending = Option<(usize, Value)>;
+
+/// One worker process to its end (or to a stall).  Result records are sent on
+/// `tx`; returns the item that was being executed when the worker was lost
+/// and why ("timeout" / "crash"), or (None, None) after a clean end.
+fn run_worker(
+    exe: &std::path::Path,
+    worker: &str,
+    args: &[String],
+    extra: &[String],
+    stall: Duration,
+    tx: &mpsc::Sender<Result<Value, String>>,
+) -> (Pending, Option<&'static str>, Option<usize>) {
+    let mut last_done: Option<usize> = None;
+    let mut child = match Command::new(exe)
+        .arg(worker)
+        .args(args)
+        .args(extra)
+        .stdin(Stdio::null())
+        .stdout(Stdio::piped())
+        .stderr(Stdio::null())
+        .spawn()
+    {
+        Ok(c) => c,
+        Err(e) => {
+            let _ = tx.send(Err(format!("cannot spawn worker: {e}")));
+            return (None, None, None);
+        }
+    };
+    let stdout = child.stdout.take().unwrap();
+    let (ltx, lrx) = mpsc::channel::<String>();
+    let reader = std::thread::spawn(move || {
+        for line in BufReader::new(stdout).lines().map_while(Result::ok) {
+            if ltx.send(line).is_err() {
+                break;
+            }
+        }
+    });
+    let mut pending: Pending = None;
+    let mut lost: Option<&'static str> = None;
+    loop {
+        match lrx.recv_timeout(stall) {
+            Ok(line) => {
+                if let Some(rest) = line.strip_prefix("S ") {
+                    let mut it = rest.splitn(2, ' ');
+                    let idx: usize = it.next().and_then(|s| s.parse().ok()).unwrap_or(0);
+                    let v: Value = it.next().and_then(|s| serde_json::from_str(s).ok()).unwrap_or(Value::Null);
+                    pending = Some((idx, v));
+                } else if let Some(rest) = line.strip_prefix("R ") {
+                    pending = None;
+                    match serde_json::from_str::<Value>(rest) {
+                        Ok(v) => {
+                            if let Some(i) = v["i"].as_u64() {
+                                last_done = Some(i as usize);
+                            }
+                            let _ = tx.send(Ok(v));
+                        }
+                        Err(e) => {
+                            let _ = tx.send(Err(format!("bad worker line: {e}")));
+                        }
+                    }
+                }
+            }
+            Err(mpsc::RecvTimeoutError::Timeout) => {
+                let _ = child.kill();
+                lost = Some("timeout");
+                break;
+            }
+            Err(mpsc::RecvTimeoutError::Disconnected) => break,
+        }
+    }
+    let status = child.wait();
+    let _ = reader.join();
+    let clean = matches!(&status, Ok(s) if s.success());
+    if lost.is_none() && !clean {
+        lost = Some("crash");
+    }
+    (pending, lost, last_done)
+}
 
 /// Runs `worker` (a sub-command of this binary) as child processes, `jobs` in
 /// parallel, each restarted after a stall or crash.  `on_result` receives
@@ -237,82 +331,48 @@ fn supervise(worker: &str, args: &[String], jobs: usize, sink: &mut dyn FnMut(Va
         handles.push(std::thread::spawn(move || {
             let mut skip = 0usize;
             let mut restarts = 0;
+            let mut confirmed_hangs = 0;
             loop {
-                let mut child = match Command::new(&exe)
-                    .arg(&worker)
-                    .args(&args)
-                    .args(["--part", &part.to_string(), "--parts", &jobs.to_string(), "--skip", &skip.to_string()])
-                    .stdin(Stdio::null())
-                    .stdout(Stdio::piped())
-                    .stderr(Stdio::null())
-                    .spawn()
-                {
-                    Ok(c) => c,
-                    Err(e) => {
-                        let _ = tx.send(Err(format!("cannot spawn worker: {e}")));
-                        return;
-                    }
-                };
-                let stdout = child.stdout.take().unwrap();
-                let (ltx, lrx) = mpsc::channel::<String>();
-                let reader = std::thread::spawn(move || {
-                    for line in BufReader::new(stdout).lines().map_while(Result::ok) {
-                        if ltx.send(line).is_err() {
-                            break;
-                        }
-                    }
-                });
-                let mut pending: Option<(usize, Value)> = None;
-                let mut lost: Option<&'static str> = None;
-                loop {
-                    match lrx.recv_timeout(stall) {
-                        Ok(line) => {
-                            if let Some(rest) = line.strip_prefix("S ") {
-                                let mut it = rest.splitn(2, ' ');
-                                let idx: usize = it.next().and_then(|s| s.parse().ok()).unwrap_or(0);
-                                let v: Value = it.next().and_then(|s| serde_json::from_str(s).ok()).unwrap_or(Value::Null);
-                                pending = Some((idx, v));
-                            } else if let Some(rest) = line.strip_prefix("R ") {
-                                pending = None;
-                                match serde_json::from_str::<Value>(rest) {
-                                    Ok(v) => {
-                                        let _ = tx.send(Ok(v));
-                                    }
-                                    Err(e) => {
-                                        let _ = tx.send(Err(format!("bad worker line: {e}")));
-                                    }
-                                }
+                let extra = vec!["--part".to_string(), part.to_string(), "--parts".into(), jobs.to_string(),
+                                 "--skip".into(), skip.to_string()];
+                let (pending, lost, last_done) = run_worker(&exe, &worker, &args, &extra, stall, &tx);
+                if let Some(d) = last_done {
+                    skip = skip.max(d + 1);
+                }
+                let Some(why) = lost else { return };
+                restarts += 1;
+                if restarts > 300 {
+                    let _ = tx.send(Err("too many worker restarts".into()));
+                    return;
+                }
+                match pending {
+                    Some((idx, mut v)) => {
+                        // A stall may be an overloaded machine: run the item once more, alone,
+                        // with a generous limit, before calling it a hang of the shell.
+                        let mut settled = false;
+                        if why == "timeout" && confirmed_hangs < 3 {
+                            let extra = vec!["--only".to_string(), idx.to_string()];
+                            let (p2, l2, _) = run_worker(&exe, &worker, &args, &extra, stall * 8, &tx);
+                            if l2.is_none() && p2.is_none() {
+                                settled = true; // its result record has been delivered
+                            } else {
+                                confirmed_hangs += 1;
                             }
                         }
-                        Err(mpsc::RecvTimeoutError::Timeout) => {
-                            let _ = child.kill();
-                            lost = Some("timeout");
-                            break;
+                        if !settled {
+                            v["lost"] = json!(why);
+                            let _ = tx.send(Ok(v));
                         }
-                        Err(mpsc::RecvTimeoutError::Disconnected) => break,
+                        skip = skip.max(idx + 1);
                     }
-                }
-                let status = child.wait();
-                let _ = reader.join();
-                let clean = matches!(&status, Ok(s) if s.success());
-                if lost.is_none() && !clean {
-                    lost = Some("crash");
-                }
-                match (lost, pending) {
-                    (None, _) => return,
-                    (Some(why), Some((idx, mut v))) => {
-                        v["lost"] = json!(why);
-                        let _ = tx.send(Ok(v));
-                        skip = idx + 1;
-                        restarts += 1;
-                        if restarts > 200 {
-                            let _ = tx.send(Err("too many worker restarts".into()));
+                    None => {
+                        // lost between two items (start-up, end): nothing to attribute; go on
+                        // after the last item that was completed
+                        let _ = tx.send(Ok(json!({"note": format!("worker restarted ({why}) outside an execution")})));
+                        if restarts > 20 {
+                            let _ = tx.send(Err(format!("worker repeatedly lost ({why}) outside an execution")));
                             return;
                         }
-                    }
-                    (Some(why), None) => {
-                        let _ = tx.send(Err(format!("worker lost ({why}) outside an execution")));
-                        return;
                     }
                 }
             }
@@ -371,7 +431,11 @@ fn cmd_random(args: &[String]) -> i32 {
     let out_path = opt(args, "--out").expect("--out");
     let full_path = opt(args, "--full").expect("--full");
     let mut recs: Vec<Value> = vec![];
-    let mut sink = |v: Value| recs.push(v);
+    let mut sink = |v: Value| {
+        if v.get("note").is_none() {
+            recs.push(v)
+        }
+    };
     if let Err(e) = supervise("worker-random", &passthrough(args), jobs, &mut sink) {
         eprintln!("yv-c02 random: {e}");
         return 2;
